@@ -271,3 +271,11 @@ package cmpp20
 //@     invariant @dec forall j int :: 0 <= j && j < i ==> p.DestTerminalID[j] == gq.DestTerminalID[j]
 //@     invariant @safe !packet.rfailed(b) ==> (forall j int :: 0 <= j && j < i ==> nonul(p.DestTerminalID[j]) && len(p.DestTerminalID[j]) <= 21)
 //@     decreases int(p.DestUsrTL) - i
+
+// ---------------------------------------------------------------- connect constructor (C15, C10)
+
+//@ func NewConnect
+//@   props C15,C10
+//@   ensures [C15 auth] result != nil && result.AuthenticatorSource == md5(cat(account, zeros(9), passwd, dec10(int(result.Timestamp)))) && len(result.AuthenticatorSource) == 16
+//@   ensures [C15 fields] result.SourceAddr == account && int(result.Timestamp) <= 1231235959
+//@   ensures [C10 header] int(result.Header.CommandID) == 1 && result.Header.SequenceID == seqID
